@@ -451,6 +451,7 @@ def jobs(tier, seed):
     full = ((0, 1, 2), (-1, 0, 1, 2))
     for L in (0, 1, 2):
         js.append(Job(f"n3_arclists_len{L}_full", 72**L, _n3_chunk, (L,) + full, describe="ordered arc lists (parallel/anti-parallel) on 3 nodes, caps {0,1,2}, costs {-1,0,1,2}; every (s,t,demand) and every balanced supply vector"))
+    js.append(Job("n3_arclists_len3_huge_costs", 18**3, _n3_chunk, (3, (3,), (-2, 5, 10**10)), describe="3 arcs on 3 nodes, capacity 3, costs {-2, 5, 10^10}: one arc priced ten orders of magnitude above the others (penalty arcs; tolerances scaled by the cost sum)"))
     js.append(Job("n3_arclists_len3", 36**3, _n3_chunk, (3, (1, 2), (-1, 0, 2)), describe="3 arcs, caps {1,2}, costs {-1,0,2}"))
     for k in (1, 2, 3):
         cs = (-1, 0, 1, 2) if (k < 3 or tier == "thorough") else (-1, 1)
@@ -462,6 +463,7 @@ def jobs(tier, seed):
         for cols in (1, 2, 3):
             js.append(Job(f"assignment_{rows}x{cols}", 4 ** (rows * cols), _assign_chunk, (rows, cols), describe="solve_assignment on all matrices over {-1,0,1,2}"))
     if tier == "thorough":
+        js.append(Job("n3_arclists_len4_huge_costs", 18**4, _n3_chunk, (4, (3,), (-2, 5, 10**10)), describe="4 arcs on 3 nodes, capacity 3, costs {-2, 5, 10^10}"))
         js.append(Job("n3_arclists_len3_full", 72**3, _n3_chunk, (3,) + full, describe="3 arcs, full alphabets"))
         js.append(Job("n4_arcsets_4", comb(12, 4) * 4**4, _n4_chunk, (4, (1, 2), (-1, 1)), describe="4 arcs on 4 nodes, caps {1,2}, costs {-1,1}"))
         js.append(Job("n3_arclists_len4", 24**4, _n3_chunk, (4, (1, 2), (-1, 1)), describe="4 arcs on 3 nodes, caps {1,2}, costs {-1,1}"))
